@@ -223,10 +223,9 @@ def _encode_image(case):
         data = text.encode("utf-8")
         if case.get("bad_utf8") and path.endswith("/" + case["bad_utf8"]) or \
                 path == case.get("bad_utf8"):
-            # an undecodable byte inside a trailing comment of the first line: the decoded text
-            # (bad byte skipped) equals the original fragment plus that comment
-            first, _, rest = data.partition(b"\n")
-            data = first + b" ! caf\xff\xfe" + b"\n" + rest
+            # an extra last line holding a comment with undecodable bytes: the decoded text
+            # (bad bytes skipped) equals the fragment plus that comment line
+            data = data + b" ! caf\xff\xfe\n"
         image[path] = data
     return image
 
@@ -264,10 +263,10 @@ def execute(case):
     runs = case["runs"]
     inlined = "\n".join(lines) + "\n"
     if case.get("bad_utf8"):
-        # the decoded fragment carries an extra trailing comment on its first line
+        # the decoded fragment carries an extra comment line after its last line
         k = case["names"].index(case["bad_utf8"])
         ll = list(lines)
-        ll[runs[k][0]] = ll[runs[k][0]] + " ! caf"
+        ll[runs[k][1]] = ll[runs[k][1]] + "\n ! caf"
         inlined = "\n".join(ll) + "\n"
     # ---- references first (pristine)
     ref_full = ref.outcome(std, "string", inlined, opts, want=["stmts"])
@@ -277,7 +276,8 @@ def execute(case):
         k = case["names"].index(absent[0])
         i, j = runs[k][0], runs[k][1]
         minus = "\n".join(lines[:i] + lines[j + 1:]) + "\n"
-        ref_minus = ref.outcome(std, "string", minus, opts, want=["stmts"])
+        if minus.strip():  # a source consisting of the INCLUDE line only is not judged
+            ref_minus = ref.outcome(std, "string", minus, opts, want=["stmts"])
     if ref_full["outcome"][0] != "ok":
         return {"events": [["ref-rejects", ref_full["outcome"][0]]], "violations": [],
                 "stats": stats, "nontrivial": False, "state_keys": [],
